@@ -50,7 +50,7 @@ PROPS = {
     ),
     "C04": dict(
         title="Interrupted operations resume to the same result",
-        lean=["LP.Props.C04loop", "LP.Props.C08"],
+        lean=["LP.Props.C04loop", "LP.Props.C08", "LP.Props.C04select", "LP.Props.C03final"],
         profiles=[("chunks", ALL_VARIANTS), ("life", ALL_VARIANTS)],
         R={"ret": SELECT_EPS, "st": (SELECT_EPS, None), "draws": SELECT_EPS},
         D={k: SELECT_EPS for k in ["op", "status", "p2i", "batch", "flags", "nrw", "last", "cpay", "wl", "payers",
